@@ -123,7 +123,10 @@ CLAIMED = {
               "(LIKE BUT, TR cards, surface parameters) must not change. For plain decimals the key is proved to be sign + integer "
               "digits + fraction without trailing zeros (normalizeFloat_plain), to denote the same number "
               "(key_keeps_value), and equal keys to imply numerically equal densities (same_key_same_value): different "
-              "densities never share a composition. Not proved: value preservation for literals with an exponent part."),
+              "densities never share a composition. For literals with an exponent part (marker e/E/d/D or a bare signed "
+              "exponent, with or without point) the key is the literal with the marker written as e, everything else "
+              "kept (normalizeFloat_exp); both spellings are read to the same mantissa and power of ten "
+              "(exp_key_keeps_value) and all marker spellings share one key (exp_markers_share_key)."),
         design_ref='§8 C09'),
     'C10': dict(
         technique='Lean 4 proof (field identities for rescale_fractions, decision logic of the material card reader) + Lean composition monitor on the written file',
